@@ -94,6 +94,17 @@ theorem eps_flip_invariant (hneg : ∀ x : α, - -x = x) (fl sq : α → α) (c 
   constructor
   · simp only [epsCompare, flipSol, h, h1, h2]
   · simp only [sameBox, flipSol, h]
+
+/-- the same for the repaired comparator (Pareto verdict first inside one box) -/
+theorem epsP_flip_invariant (hneg : ∀ x : α, - -x = x) (fl sq : α → α) (c : Bool) (S dirs : List Bool) (eps : List α)
+    (a b : Sol α) (hS : S.length = dirs.length) (ha : a.objs.length = dirs.length) (hb : b.objs.length = dirs.length) :
+    epsCompareP fl sq c (flipDirs S dirs) eps (flipSol S a) (flipSol S b) = epsCompareP fl sq c dirs eps a b := by
+  have h := boxScan_flip hneg fl S dirs eps a.objs b.objs hS ha hb false false
+  have h1 := cornerDist_flip hneg fl sq S dirs eps a.objs hS ha 0
+  have h2 := cornerDist_flip hneg fl sq S dirs eps b.objs hS hb 0
+  have hp := pareto_flip_invariant hneg c S dirs a b hS ha hb
+  simp only [flipSol] at hp
+  simp only [epsCompareP, flipSol, h, h1, h2, hp]
 end
 
 /-! ### archives and ranks: any re-labelling that preserves all comparisons -/
